@@ -321,4 +321,120 @@ class C03e(Obligation):
                       'the token belongs to the scope Python assigns it to')
 
 
-OBLIGATIONS = [C03a, C03b, C03c, C03d, C03e]
+import ast  # noqa: E402
+
+from jedi.inference import filters as jfilters  # noqa: E402
+from jedi.inference.names import TreeNameDefinition  # noqa: E402
+
+LIMIT_CORPUS = """v = 'module'
+def one():
+    v = 'local'; r = v
+    return r
+def two(seq):
+    total = 0
+    total = total + len(seq); count = total
+    for item in seq: total += item; last = item
+    if total: w = total; z = w
+    return (total, count, last, z)
+class K:
+    a = 1; b = a
+    c = [b, a]; d = c
+x = v; y = x
+"""
+
+
+def use_limits(src):
+    """{(line, col): (lower, upper)}: for every plain name USE the range in which the "defined before" position limit
+    must lie: lower = start of the innermost statement the use belongs to (every earlier statement of the block is then
+    visible), upper = the statement start for a use in the value of an assignment (its own targets stay hidden), the
+    use itself otherwise"""
+    tree = ast.parse(src)
+    out = {}
+
+    def visit(stmt):
+        for node in ast.iter_child_nodes(stmt):
+            if isinstance(node, ast.stmt):
+                visit(node)
+        own = []        # names of this statement that are not inside a nested statement
+
+        def collect(n, top):
+            for ch in ast.iter_child_nodes(n):
+                if isinstance(ch, ast.stmt):
+                    continue
+                if isinstance(ch, ast.Name) and isinstance(ch.ctx, ast.Load):
+                    own.append(ch)
+                collect(ch, False)
+        collect(stmt, True)
+        start = (stmt.lineno, stmt.col_offset)
+        is_assign = isinstance(stmt, (ast.Assign, ast.AnnAssign, ast.AugAssign))
+        for nm in own:
+            pos = (nm.lineno, nm.col_offset)
+            out[pos] = (start, start if is_assign else pos)
+    for st in tree.body:
+        visit(st)
+    return out
+
+
+class C03f(Obligation):
+    id = 'C03.f'
+    title = '"defined before use": the position limit of a lookup is the start of the STATEMENT the use belongs to, so earlier statements on the same line are seen and its own targets are not'
+    pattern = 'P4 concrete tree x symbolic cursor; reference from CPython ast'
+    interpret_modules = ('jedi', 'parso', 'obligations')
+    loop_bound = 400
+    max_paths = 4000
+    assumptions = (
+        'corpus with several statements per line (;), augmented and self-referencing assignments, one-line compound '
+        'statements; the cursor is symbolic and resolved by the interpreted get_leaf_for_position; domain: plain name uses '
+        '(ast.Name Load that is not an attribute, keyword or import); context.goto is a recording stub; no walrus',
+    )
+
+    def scenario(self, ctx, cfg):
+        src = LIMIT_CORPUS
+        script = jedi.Script(src)
+        limits = use_limits(src)
+        line = ctx.int('line')
+        column = ctx.int('column')
+        ctx.assume(ctx.Or(*[ctx.And(line == l, c < column, column <= c + 1) for (l, c) in limits]))
+        leaf = ctx.run(script._module_node.get_leaf_for_position, (line, column))
+        if leaf is None or leaf.start_pos not in limits:
+            ctx.check(False, 'the position resolves to the use')
+            return
+        asked = []
+        context = Obj(goto=lambda name, position=None: asked.append((name, position)) or ['target'], tag='context')
+        n = TreeNameDefinition(context, leaf)
+        out = ctx.call(n.goto)
+        ctx.check(out.exc is None and len(asked) == 1 and asked[0][0] is leaf, 'a plain use is looked up through its context, once')
+        if out.exc is not None or len(asked) != 1:
+            return
+        lower, upper = limits[leaf.start_pos]
+        pos = asked[0][1]
+        ctx.observe((leaf.value, leaf.start_pos, pos), 'limit')
+        ctx.check(pos is not None and lower <= pos, 'every statement that precedes the use\'s statement is visible (also on the same line)')
+        ctx.check(pos is not None and pos <= upper, 'the targets of the use\'s own assignment (and anything behind the use) are not')
+
+
+class C03g(Obligation):
+    id = 'C03.g'
+    title = 'only names declared in a GLOBAL statement are merged into the module namespace (nonlocal and everything else stay where they are)'
+    pattern = 'P1 (GlobalNameFilter._filter over names whose parent node type is an unconstrained symbolic string)'
+    assumptions = ('k<=3 candidate names; the node type of each parent is an unconstrained symbolic string',)
+
+    def configs(self, tier):
+        return [dict(k=k) for k in (1, 2, 3)]
+
+    def scenario(self, ctx, cfg):
+        types = [ctx.str('parent_type%d' % i, maxlen=16) for i in range(cfg['k'])]
+        names = [Obj(parent=Obj(type=t), tag='name%d' % i) for i, t in enumerate(types)]
+        f = jfilters.GlobalNameFilter.__new__(jfilters.GlobalNameFilter)
+        raw = jfilters.GlobalNameFilter._filter
+        ctx.force(getattr(raw, '__wrapped__', raw))
+        out = ctx.call(lambda: list(jfilters.GlobalNameFilter._filter(f, names)))
+        ctx.check(out.exc is None, 'never raises')
+        if out.exc is not None:
+            return
+        for i, nm in enumerate(names):
+            inside = any(x is nm for x in out.value)
+            ctx.check(ctx.iff(inside, types[i] == 'global_stmt'), 'kept iff the name sits in a global statement')
+
+
+OBLIGATIONS = [C03a, C03b, C03c, C03d, C03e, C03f, C03g]
